@@ -56,12 +56,32 @@ def dec(v):
     return TMAX if v == INF else TMAX_OVL if v == INF + 1 else TMIN if v == -INF else np.float32(v)
 
 
-def run_wave(cls, c, d, lanes, caps, inw, reuse=False, strip=False, actrl=None, T=None, via_s=False, sims_prop=None):
+def run_wave(cls, c, d, lanes, caps, inw, reuse=False, strip=False, actrl=None, T=None, via_s=False, sims_prop=None, warmup=None):
     """Build the simulator, assign the input images, propagate, capture.  inw[i][p]: image of s_node i (None if it
     drives nothing).  via_s: assign through s[0..2] + s_to_c (images must be stimulus images), else write the images
     into the input slots after s_to_c (multi-transition inputs)."""
     w = cls(c, d, sims=lanes, c_caps=caps, a_ctrl=actrl, c_reuse=reuse, strip_forks=strip)
     w.simctl_int[1] = 0
+    if warmup is not None:
+        # history: the SAME simulator object has already been used for another stimulus (assign, propagate, capture)
+        assign(w, c, lanes, warmup, via_s)
+        w.c_prop(seed=0)
+        w.c_to_s()
+        if actrl is not None:
+            w.abuf[...] = 0
+    assign(w, c, lanes, inw, via_s)
+    if sims_prop is None:
+        w.c_prop(seed=0)
+    else:
+        w.c_prop(sims=sims_prop, seed=0)
+    if T is None:
+        w.c_to_s()
+    else:
+        w.c_to_s(time=float(T))
+    return w
+
+
+def assign(w, c, lanes, inw, via_s):
     s = np.array(w.s)
     snodes = c.s_nodes
     for i, n in enumerate(snodes):
@@ -86,15 +106,6 @@ def run_wave(cls, c, d, lanes, caps, inw, reuse=False, strip=False, actrl=None, 
                 for k, v in enumerate(im):
                     cc[loc + k, p] = dec(v)
         w.c[...] = cc
-    if sims_prop is None:
-        w.c_prop(seed=0)
-    else:
-        w.c_prop(sims=sims_prop, seed=0)
-    if T is None:
-        w.c_to_s()
-    else:
-        w.c_to_s(time=float(T))
-    return w
 
 
 def observe(w, c, lanes, enc, lines=True):
